@@ -115,7 +115,7 @@ SPECS = {
                         dict(n=3, ntypes=2, maxpars=(1, 2), maxws=(3,), backends=('fork',), cached='none', reqs='roots',
                              nonempty_deps=True, sample=60, must=True)],
                  thorough=[dict(n=4, ntypes=2, maxpars=(1, 2, 3, UNL), maxws=(1, 2, 3, 16), backends=('fork', 'spawn'),
-                                cached='none', reqs='roots', fails='singles', sample=15000, tcache_opts=[(True, True), (False, True)]),
+                                cached='none', reqs='roots', fails='singles', sample=9000, tcache_opts=[(True, True), (False, True)]),
                            dict(n=4, ntypes=1, maxpars=(1, 2), maxws=(3, 4), backends=('fork',), cached='all-subsets',
                                 busts=(True, False), reqs='roots', max_edges=2, sample=1500, must=True),
                            dict(n=4, ntypes=2, maxpars=(2, 3), maxws=(3, 4, 16), backends=('fork', 'spawn'), cached='none',
@@ -297,7 +297,7 @@ def run(prop: str, tier: str) -> int:
         # 1. model checking through the refinement mapping
         text = harness.labrun_cfg_text(invariants=spec['invs'] + I_INVS, properties=spec['props'],
                                        max_int=spec.get('max_int', 0), logs=spec.get('logs', False))
-        mc = harness.model_check(cfgs, text, scratch, tag=prop)
+        mc = harness.model_check(cfgs, text, scratch, tag=prop, timeout=3000 if tier == 'quick' else 7200)
         if mc.error:
             print(f'MACHINERY: TLC failed on LabRun: {mc.error[:2000]}')
             return 2
